@@ -1,9 +1,9 @@
 #!/bin/bash
-# usage: tools/try_seed.sh Cxx path/to.diff [tier]   -- applies the diff to /repo, runs the check, reverts
+# usage: tools/try_seed.sh Cxx path/to.diff [tier]   -- applies the diff to /repo, runs the check, ALWAYS reverts (also when killed)
 set -u
 P=$1; D=$2; T=${3:-quick}
 cd /repo && git diff --quiet || { echo "/repo dirty"; exit 2; }
+trap 'git -C /repo checkout -- . ' EXIT INT TERM
 git -C /repo apply "$D" || { echo "patch does not apply"; exit 2; }
-cd /verif && ./check $P --tier $T; rc=$?
-git -C /repo checkout -- .
+cd /verif && timeout -k 5 ${SEED_TIMEOUT:-1200} ./check $P --tier $T; rc=$?
 echo "exit=$rc"
